@@ -83,6 +83,13 @@ fn sorted(s: &BTreeSet<isize>) -> Vec<isize> {
 /// Check every operation of the pair (a, b) against the set model; returns the first
 /// disagreement as (operation, expected, observed).
 pub fn check_pair(a: &DomSpec, b: &DomSpec, t: isize, pred_mask: u16) -> Option<(String, String, String)> {
+    let probes: Vec<isize> = ((LO - 1)..=(HI + 1)).collect();
+    let p = |u: &isize| (pred_mask >> ((*u - LO) as u16)) & 1 == 1;
+    check_pair_with(a, b, t, &p, &format!("mask {:#b}", pred_mask), &probes)
+}
+
+/// `pred` is an arbitrary predicate on elements, `probes` the values `contains` is asked about.
+pub fn check_pair_with(a: &DomSpec, b: &DomSpec, t: isize, pred: &dyn Fn(&isize) -> bool, pred_desc: &str, probes: &[isize]) -> Option<(String, String, String)> {
     let da = a.build();
     let db = b.build();
     let sa = a.set();
@@ -117,7 +124,7 @@ pub fn check_pair(a: &DomSpec, b: &DomSpec, t: isize, pred_mask: u16) -> Option<
         if sa.len() == 1 { sa.iter().next().copied() } else { None },
         da.singleton_value()
     );
-    for k in (LO - 1)..=(HI + 1) {
+    for k in probes.iter().copied() {
         chk!(format!("a.contains({})", k), sa.contains(&k), da.contains(k));
     }
     // binary operations, both argument orders are covered by calling check_pair(b, a) too
@@ -161,16 +168,16 @@ pub fn check_pair(a: &DomSpec, b: &DomSpec, t: isize, pred_mask: u16) -> Option<
         da.drop_before(|v| t <= *v).map(|d| denote(&d))
     );
     // arbitrary predicate given as a bit mask over the window
-    let p = |u: &isize| (pred_mask >> ((*u - LO) as u16)) & 1 == 1;
+    let p = |u: &isize| pred(u);
     let cb: Vec<isize> = asort.iter().copied().take_while(|u| !p(u)).collect();
     chk!(
-        format!("a.copy_before(mask {:#b})", pred_mask),
+        format!("a.copy_before({})", pred_desc),
         if cb.is_empty() { None } else { Some(cb) },
         da.copy_before(p).map(|d| denote(&d))
     );
     let dbf: Vec<isize> = asort.iter().copied().skip_while(|u| !p(u)).collect();
     chk!(
-        format!("a.drop_before(mask {:#b})", pred_mask),
+        format!("a.drop_before({})", pred_desc),
         if dbf.is_empty() { None } else { Some(dbf) },
         da.drop_before(p).map(|d| denote(&d))
     );
@@ -263,6 +270,133 @@ fn run_window(bytes: &[u8], ctx: &Ctx) -> CaseInfo {
     let t = s.range((LO - 1) as i64, (HI + 1) as i64) as isize;
     let mask = ((s.byte() as u16) << 8 | s.byte() as u16) & 0xff;
     eval(&a, &b, t, mask, ctx)
+}
+
+// ---- large domains: tens to hundreds of elements, also far away from zero ---------------------
+
+fn gen_large(s: &mut Source, base: isize, cap: usize) -> DomSpec {
+    let n = crate::gen::scale::size(s, cap) as isize;
+    match s.weighted(&[3, 3, 2]) {
+        0 => {
+            let a = base + s.range(-20, 60) as isize;
+            DomSpec::Interval(a, a + n - 1)
+        }
+        k => {
+            // arithmetic progression with a few holes, extras, duplicates, possibly unsorted
+            let stride = 1 + s.below(6) as isize;
+            let start = base + s.range(-20, 60) as isize;
+            let mut v: Vec<isize> = (0..n).map(|i| start + i * stride).collect();
+            let holes = s.below(4);
+            for _ in 0..holes {
+                if v.len() > 1 {
+                    let i = s.below(v.len());
+                    v.remove(i);
+                }
+            }
+            let extras = s.below(3);
+            for _ in 0..extras {
+                v.push(base + s.range(-30, 400) as isize);
+            }
+            if s.flag(60) {
+                v.reverse();
+            }
+            if s.flag(40) {
+                let i = s.below(v.len());
+                v.push(v[i]);
+            }
+            if k == 1 {
+                DomSpec::SparseVec(v)
+            } else {
+                // From<&[isize]> is documented for sorted input in the suite's uses: keep it sorted
+                v.sort();
+                DomSpec::SparseSlice(v)
+            }
+        }
+    }
+}
+
+fn run_large(bytes: &[u8], ctx: &Ctx) -> CaseInfo {
+    let mut s = Source::new(bytes);
+    let base: isize = match s.weighted(&[5, 2, 1, 1]) {
+        0 => 0,
+        1 => 1_000_000_007,
+        2 => isize::MAX - 4000,
+        _ => isize::MIN + 200,
+    };
+    let cap = if ctx.tier == Tier::Thorough { 2000 } else { 300 };
+    let a = gen_large(&mut s, base, cap);
+    let b = if s.flag(90) {
+        // derived from a: drop / add an element, or its hull as an interval, or a sub-range
+        let mut v: Vec<isize> = a.set().into_iter().collect();
+        match s.below(4) {
+            0 => {
+                let k = s.below(v.len());
+                v.remove(k);
+                if v.is_empty() {
+                    v.push(base);
+                }
+                DomSpec::SparseVec(v)
+            }
+            1 => {
+                v.push(base + s.range(-30, 400) as isize);
+                DomSpec::SparseVec(v)
+            }
+            2 => DomSpec::Interval(v[0], *v.last().unwrap()),
+            _ => {
+                // an interval strictly inside the hull, between two members where possible
+                let i = s.below(v.len());
+                let j = i + s.below(v.len() - i);
+                let lo = v[i] + if s.flag(128) { 1 } else { 0 };
+                let hi = (v[j] - if s.flag(128) { 1 } else { 0 }).max(lo);
+                DomSpec::Interval(lo, hi)
+            }
+        }
+    } else {
+        gen_large(&mut s, base, cap)
+    };
+    let (sa, sb) = (a.set(), b.set());
+    let all: Vec<isize> = sa.union(&sb).copied().collect();
+    let t = all[s.below(all.len())] + s.range(-1, 1) as isize;
+    let m = 2 + s.below(9) as isize;
+    let r = s.below(m as usize) as isize;
+    let pred = move |u: &isize| (*u).rem_euclid(m) == r;
+    let pred_desc = format!("|u| u.rem_euclid({}) == {}", m, r);
+    // probes: members, their neighbours, and the ends
+    let mut probes: Vec<isize> = vec![];
+    for _ in 0..12 {
+        let x = all[s.below(all.len())];
+        probes.extend([x.saturating_sub(1), x, x.saturating_add(1)]);
+    }
+    probes.extend([all[0].saturating_sub(1), *all.last().unwrap(), all.last().unwrap().saturating_add(1)]);
+    let mut info = CaseInfo::default();
+    let desc = format!("a = {}; b = {}; t = {}; pred = {}", a.show(), b.show(), t, pred_desc);
+    info.key = hash_str(&desc);
+    let inter = sa.intersection(&sb).count();
+    info.nontrivial = inter > 0 && (inter < sa.len() || inter < sb.len());
+    let big = sa.len().max(sb.len());
+    info.class(if big >= 256 { "elements>=256" } else if big >= 33 { "elements>=33" } else if big >= 9 { "elements>=9" } else { "elements<9" });
+    info.class(if base == 0 { "near-zero" } else { "far-from-zero" });
+    if matches!(a, DomSpec::Interval(..)) != matches!(b, DomSpec::Interval(..)) {
+        info.class("interval-with-sparse");
+    }
+    if ctx.want_sample {
+        let cut = |x: String| if x.len() > 300 { format!("{} ... ({} chars)", &x[..300], x.len()) } else { x };
+        info.sample = Some(json!({"a": cut(a.show()), "b": cut(b.show()), "threshold": t, "pred": pred_desc}));
+    }
+    for (x, y, tag) in [(&a, &b, "(a,b)"), (&b, &a, "(b,a)")] {
+        match guarded(u64::MAX, || check_pair_with(x, y, t, &pred, &pred_desc, &probes)) {
+            Guarded::Ok(None) => {}
+            Guarded::Ok(Some((op, exp, obs))) => {
+                let opk = op.split('(').next().unwrap_or(&op).to_string();
+                info.fail(format!("C18:{}", opk), format!("{} order {}\n  operation {}: expected {} observed {}", desc, tag, op, exp, obs));
+            }
+            Guarded::Panic(p) => {
+                info.fail(format!("C18:panic:{}", p.key()), format!("{} order {}\n  panicked: {} at {}", desc, tag, p.message, p.location));
+            }
+            Guarded::Budget(_) => {}
+        }
+    }
+    info
 }
 
 // ---- extreme bounds: only O(1) operations ------------------------------------------------
@@ -398,7 +532,7 @@ fn fixed_extreme(ctx: &Ctx) -> CaseInfo {
 pub fn def() -> PropertyDef {
     PropertyDef {
         id: "C18",
-        rule: "pairs of FiniteDomain values over the window -3..=4 (interval, From<Vec> from unsorted/duplicated vectors, From<&[isize]>), second domain derived from the first with weight 1/4; every public operation compared with a BTreeSet model in both argument orders; plus intervals with extreme isize bounds (O(1) operations only). Non-trivial = the two denoted sets overlap partially or one is a strict subset of the other (window family), or a bound is isize::MIN/MAX (extreme family); distinct = hash of the printed case",
+        rule: "pairs of FiniteDomain values over the window -3..=4 (interval, From<Vec> from unsorted/duplicated vectors, From<&[isize]>), second domain derived from the first with weight 1/4; every public operation compared with a BTreeSet model in both argument orders; plus intervals with extreme isize bounds (O(1) operations only). Non-trivial = the two denoted sets overlap partially or one is a strict subset of the other (window family), or a bound is isize::MIN/MAX (extreme family); distinct = hash of the printed case. Family `large`: domains of up to 300 (thorough 2000) elements - intervals and arithmetic progressions with holes, extras, duplicates, unsorted input - placed near 0, near 10^9, near isize::MAX and near isize::MIN; the second domain is independent or derived (element removed/added, hull interval, an interval strictly between two members); predicates are residue classes, `contains` is probed at members and their neighbours",
         assumptions: vec![
             "domains are non-empty (From<Vec> panics on an empty vector; empty RangeInclusive is not generated)",
             "copy_before/drop_before follow take_while/skip_while semantics on the ascending element sequence for arbitrary predicates",
@@ -406,6 +540,7 @@ pub fn def() -> PropertyDef {
         families: vec![
             Family { name: "window", max_len: 24, quick: 3_000_000, thorough: 60_000_000, run: run_window },
             Family { name: "extreme", max_len: 8, quick: 200_000, thorough: 2_000_000, run: run_extreme },
+            Family { name: "large", max_len: 96, quick: 200_000, thorough: 3_000_000, run: run_large },
         ],
         fixed: vec![
             Fixed { name: "eq-is-subset-example", run: fixed_examples },
